@@ -103,6 +103,27 @@ pub fn run(ctx: &Ctx, ev: &mut Ev) {
             }
         }
     }
+    // (b2) invalid UTF-8, systematically: every (non-ASCII byte, any byte) pair and every defect class of C14, after prefixes
+    // and before suffixes that put it into the stride loops and the tails, over ASCII / Latin1 / non-Latin1 / RTL context
+    if ctx.want("invalid") {
+        let prefixes: Vec<Vec<u8>> = { let mut v: Vec<Vec<u8>> = vec![vec![], b"a".to_vec(), "\u{E9}".as_bytes().to_vec(), "\u{4E00}".as_bytes().to_vec(), "\u{5D0}".as_bytes().to_vec()]; for n in [15usize, 16, 17, 31] { v.push(vec![b'a'; n]); let mut w = vec![b'a'; n - 2]; w.extend_from_slice("\u{E9}".as_bytes()); v.push(w); } v };
+        let suffixes: [&[u8]; 4] = [b"", b"a", "\u{E9}".as_bytes(), b"aaaaaaaaaaaaaaaaaaaa"];
+        for a in 0x80..=0xFFu32 {
+            if !ev.mine() { continue; }
+            for b in 0..=0xFFu32 {
+                if tiny && (a + b) % 61 != 0 { continue; }
+                for (pi, pre) in prefixes.iter().enumerate() { for (si, suf) in suffixes.iter().enumerate() {
+                    if !th && (pi + si + (a + b) as usize) % 4 != 0 && !(pi < 3 && si < 2) { continue; }
+                    let mut v = pre.clone(); v.push(a as u8); v.push(b as u8); v.extend_from_slice(suf);
+                    check_bytes(&mut drv, ev, &v, (a as usize + pi) % 16, true);
+                } }
+            }
+        }
+        for (di, d) in crate::c14::DEFECTS.iter().enumerate() {
+            if !ev.mine() { continue; }
+            for pre in prefixes.iter() { for suf in suffixes.iter() { let mut v = pre.clone(); v.extend_from_slice(d); v.extend_from_slice(suf); check_bytes(&mut drv, ev, &v, di % 16, true); } }
+        }
+    }
     // (c) seeded random text with injected invalid UTF-8 at every stride phase; unpaired surrogates in UTF-16
     if ctx.want("random") {
         let ints = interesting();
